@@ -410,9 +410,18 @@ def rule_ovf(env, shared):
             # closure events: parameters of the closure are not entry parameters
             site(e, u, top if not e.info["chain"] and e.body is top else _top_of(e, top), True)
     # standalone bodies not inlined into any pull unit
+    from r_ticket import all_callers
     for b in env.F.non_test_bodies():
         if b.def_ in covered:
             continue
+        # a crate-private helper is judged where it is called (inlined into its callers, with the facts of the call sites);
+        # judged on its own it would have to hold for arguments no caller passes
+        info_b = b.info or {}
+        if not b.is_closure and not info_b.get("exported") and info_b.get("container") in ("inherent", "free") \
+                and not info_b.get("reachable"):
+            cs = [(cb, bi) for (cb, bi) in all_callers(env, b.def_) if cb.def_ != b.def_]
+            if cs:
+                continue
         sa = env.F.impl_self_adt(b)
         world = None
         for w in env.worlds():
